@@ -15,6 +15,7 @@ import os
 
 from ..core import Machinery
 from ..drivers import listing_drv as drv
+from .list_common import one_event, selfcheck
 
 WITNESSES = ("W_NoLookBackAcrossEmptySubdir", "W_JudgeBlindToF05", "W_F05SameSet", "W_F06NeverRaises",
              "W_PruningRightOnAnyTree", "W_NoMixedChannel")
@@ -112,6 +113,62 @@ def e3(ctx):
     return scen, count
 
 
+def corrupted(scen, verdicts):
+    """corrupt one logged field of accepted traces: (label, scenario, clause TLC must name)"""
+    import copy
+
+    out = {}
+    for s, v in zip(scen, verdicts):
+        if v["v"] != "ACCEPT":
+            continue
+        files = s["tree"]["files"]
+        isdata = lambda i: files[i - 1]["kind"] in ("rf", "md")
+        for i, e in enumerate(s["events"]):
+            if e["ev"] != "ls" or e["gone"] or e["f"]["raised"] or e["r"]["raised"]:
+                continue
+            res = e["f"]["res"]
+            data = [x for x in res if isdata(x)]
+            o = e["o"]
+
+            def put(label, clause, mod):
+                if label not in out:
+                    e2 = copy.deepcopy(e)
+                    mod(e2)
+                    out[label] = (label, one_event(s, i, e2), clause)
+
+            if data and not o["hs"] and not o["he"]:
+                put("in-window file removed from the result", "C14-misses-file-in-window",
+                    lambda e2: e2["f"]["res"].remove(data[0]))
+            bad = [j + 1 for j, f in enumerate(files) if f["tmp"] and f["kind"] in ("rf", "md")]
+            if bad:
+                put("tmp. file added to the result", "C14-lists-tmp-stray-or-malformed-name", lambda e2: e2["f"]["res"].append(bad[0]))
+            pair = [(a, b) for a in data for b in data if a != b and files[a - 1]["ch"] == files[b - 1]["ch"] and files[a - 1]["t"] != files[b - 1]["t"]]
+            if pair:
+                a, b = pair[0]
+
+                def swap(e2):
+                    r = e2["f"]["res"]
+                    ia, ib = r.index(a), r.index(b)
+                    r[ia], r[ib] = r[ib], r[ia]
+                put("two files of a channel swapped", "C14-order-within-channel", swap)
+            if e["r"]["res"]:
+                put("reversed result lost a file", "C14-reverse-changes-the-set", lambda e2: e2["r"]["res"].pop())
+            put("call logged as raised", "C14-listing-raised", lambda e2: e2["f"].update(raised=True, res=[]))
+            if res:
+                put("a file listed twice", "C14-lists-a-file-twice", lambda e2: e2["f"]["res"].append(res[0]))
+            ff = [x for x in data if o["hs"] and files[x - 1]["t"] < o["s"] and files[x - 1]["kind"] == "md"]
+            if ff and not any(files[x - 1]["kind"] == "rf" for x in data) and not any(files[x - 1]["t"] == o["s"] for x in data) \
+                    and not any(f["kind"] in ("legacy", "drfprop") for f in files):
+                put("forward-fill file removed from the result", "C14-misses-forward-fill-file", lambda e2: e2["f"]["res"].remove(ff[0]))
+            out_of = [j + 1 for j, f in enumerate(files) if f["kind"] in ("rf", "md") and o["he"] and f["t"] > o["e"] and (j + 1) not in res
+                      and not f["tmp"] and f["ext"] and f["tok"] and f["depth"]]
+            if out_of and data:
+                put("file after the window added to the result", "C14-lists-file-outside-window", lambda e2: e2["f"]["res"].append(out_of[0]))
+        if len(out) >= 8:
+            break
+    return list(out.values())
+
+
 def run(ctx):
     e1(ctx)
     scen, count = e3(ctx)
@@ -129,7 +186,8 @@ def run(ctx):
     )
     for s in scen[:1] + scen[-1:]:
         ctx.sample(dict(name=s["name"], desc=s["desc"], tree=s["tree"], names=s["names"], events=s["events"][:2]))
-    ctx.validate("ListingTrace", "ListingTrace.cfg", scen, label="listing", relevant=lambda c: c.startswith("C14-"))
+    verdicts = ctx.validate("ListingTrace", "ListingTrace.cfg", scen, label="listing", relevant=lambda c: c.startswith("C14-"))
+    selfcheck(ctx, "ListingTrace", "ListingTrace.cfg", corrupted(scen, verdicts), need=5)
 
 
 def replay(ctx, path):
